@@ -247,6 +247,27 @@ def gen_exc_text(tier, seed):
     return cases
 
 
+def gen_overrun_split(tier, seed):
+    """More body bytes than announced, spread over several frames none of which is too long by itself."""
+    rng = Rng(seed + 7070)
+    cases = []
+    n = 0
+    for kind in ("deliver", "get", "return"):
+        for size, parts in ((10, (6, 6)), (9, (4, 4, 4)), (3, (2, 2)), (5, (5, 1)), (4, (1, 1, 1, 1, 1)), (6, (3, 0, 3, 1)), (2, (1, 0, 2))):
+            g = Gen(rng, chmax=2, bound=4, via_stream=rng.choice([0.0, 1.0]))
+            h = g.open_channel(1); g.bind_opened(h, 1)
+            cl = g.consume(h, "t1")
+            first = {"deliver": mg.deliver(1, "t1", 1, False, "", "k"), "return": mg.ret(1, 312, "x", "e", "k"), "get": mg.get_ok(1, 1, False, "e", "k", 0)}[kind]
+            if kind == "get":
+                g.op("send %s send %s" % (h, hx(amqp.client_only_samples(1)["basic.get"]))); g.op("ev 1")
+            g.feed([first, mg.header(1, size)] + [mg.body(1, bytes([97 + j]) * p) for j, p in enumerate(parts)])
+            g.op("crecv " + cl); g.op("recv %s -" % h)
+            g.finish()
+            n += 1
+            cases.append(g.case("o%d" % n))
+    return cases
+
+
 def gen_after_exception(tier, seed):
     """After a client exception the Connection.Close it queued is the last frame ever sent: flushed
     completely / partly / not at all, then submissions on one or two channels, a client close, frames
@@ -305,6 +326,10 @@ def suites(tier, seed):
         Suite("violations-exhaustive", "machine", lambda: gen_exhaustive(tier, seed), monitor=monitor, nontrivial=nontrivial, exhaustive=(tier != "quick"),
               rule="sequences of length %d over a 29-shape alphabet covering every arm of the dispatch, on channel {open, 0, never opened}, from 4 collector states (idle / consumer / content method seen / body half received); %s" % (
                   2 if tier == "quick" else 3, "every 6th combination" if tier == "quick" else "ALL for the open channel, every 5th for the others")),
+        Suite("overrun-in-pieces", "machine", lambda: gen_overrun_split(tier, seed), monitor=monitor, nontrivial=lambda c, il: True, canon=mg.canon_nondet, candidate_ok=mg.candidate_ok, exhaustive=True,
+              rule="a delivery / get answer / returned message announced with 10, 9, 3, 5, 4, 6, 2 bytes whose body frames (6+6, 4+4+4, 2+2, 5+1, 1+1+1+1+1, 3+0+3+1, 1+0+2) add up to more although no single frame exceeds the announcement: FrameUnexpected, nothing delivered"),
+        Suite("exception-under-backlog", "machine", lambda: [c for c in __import__("props.c01", fromlist=["x"]).gen_close_backlog(tier, seed + 7) ], monitor=monitor, nontrivial=lambda c, il: True, canon=mg.canon_nondet, candidate_ok=mg.candidate_ok,
+              rule="frames buffered, the transport stalled at a frame boundary or mid-frame, then a violation / a close is processed with the backlog pending, then the transport drains: what is written plus buffered stays whole frames and the exception's Connection.Close is the last of them"),
         Suite("after-exception", "machine", lambda: gen_after_exception(tier, seed), monitor=monitor, nontrivial=lambda c, il: True, canon=mg.canon_nondet, candidate_ok=mg.candidate_ok, exhaustive=(tier != "quick"),
               rule="4 kinds of client exception x its Connection.Close flushed completely / 5 bytes / not at all x EVERY pair of later events from {submission on channel 1, call on channel 2, client close, server frame, write, writable event, readable+writable event} (quick: every second): the exception's Close stays the last frame queued and written"),
         Suite("exception-text", "machine", lambda: gen_exc_text(tier, seed), monitor=monitor, nontrivial=lambda c, il: True, canon=mg.canon_nondet, candidate_ok=mg.candidate_ok,
